@@ -50,10 +50,10 @@ def lit(carrier, v):
         return '(%s, %s)' % (_q(v.real), _q(v.imag))
     if carrier == 'nan':
         v = float(v)
-        return 'None' if v != v else '(Some %s)' % C.q(v)
+        return 'None' if (v != v or v in (float('inf'), float('-inf'))) else '(Some %s)' % C.q(v)
     if carrier == 'cxnan':
         v = complex(v)
-        if v.real != v.real or v.imag != v.imag:
+        if not (np.isfinite(v.real) and np.isfinite(v.imag)):
             return 'None'
         return '(Some (%s, %s))' % (C.q(v.real), C.q(v.imag))
     raise ValueError(carrier)
@@ -488,7 +488,20 @@ CX_SC = [0, 1, -1, 2, 0.5, 1j, 1 - 1j, -2j]
 DIV_SC = [2, -4, 0.5, 1, -1, 3]
 
 
-def space_case(rng, recipe, op, poison=False):
+SPECIAL_OPS = ['multiply', 'divide', 'mul', 'imul', 'truediv', 'itruediv', 'rtruediv', 'rtruediv_s', 'mul_s', 'add', 'isub']
+
+
+def inject(rng, el, values):
+    """Overwrite about a third (at least one) of the entries of every leaf with special values."""
+    for t in leaf_tensors(el):
+        flat = t.data.reshape(-1) if t.data.flags.c_contiguous else None
+        n = t.data.size
+        idx = [k for k in range(min(n, 400)) if rng.random() < 0.34] or [0]
+        for k in idx:
+            t.data[np.unravel_index(k, t.data.shape)] = rng.choice(values)
+
+
+def space_case(rng, recipe, op, poison=False, special=False):
     """Run one public operation on the implementation; returns the tuple for Sets.put."""
     import odl
     leaves = leaf_recipes(recipe)
@@ -518,12 +531,35 @@ def space_case(rng, recipe, op, poison=False):
     def nanfill(el):
         for t in leaf_tensors(el):
             t.data[...] = np.nan
+    if special:
+        # exact zeros in divisors (x/0 = inf, 0/0 = nan: non-finite = None in the model), zeros / inf / nan in
+        # numerators and factors; no inf in divisors (1/inf = 0 is finite, the model conflates inf and nan)
+        num, den = [0.0, np.inf, -np.inf, np.nan, 0.0], [0.0]
+        if op in ('truediv', 'itruediv'):
+            inject(rng, x, num)
+            if y is not x:
+                inject(rng, y, den)
+        elif op == 'rtruediv':
+            inject(rng, x, den)
+            if y is not x:
+                inject(rng, y, num)
+        elif op == 'rtruediv_s':
+            inject(rng, x, den)
+        elif op == 'divide':
+            inject(rng, x, den); inject(rng, y, den)
+        else:
+            inject(rng, x, num)
+            if y is not x:
+                inject(rng, y, num)
     z = None
     lc1_out = None
     if op in ('lincomb2', 'multiply', 'divide'):
         z = mk_element(rng, recipe, kind)
+        if special:
+            inject(rng, z, [0.0])
         alias = rng.choice(sorted(ALIAS))
-        if poison and bases.isdisjoint({'int'}) and ALIAS[alias][2] not in ALIAS[alias][:2]:
+        if poison and bases.isdisjoint({'int'}) and ALIAS[alias][2] not in ALIAS[alias][:2] \
+                and (not special or rng.random() < 0.5):     # (special: also finite old contents)
             nanfill([x, y, z][ALIAS[alias][2]])       # old contents of a non-operand out: garbage
     if poison and op == 'assign' and not same and y is not x \
             and not any(a_ is b_ for a_ in leaf_tensors(x) for b_ in leaf_tensors(y)):
@@ -534,7 +570,7 @@ def space_case(rng, recipe, op, poison=False):
             nanfill(y)
     tx = ctx.term(x)
     ty = ctx.term(y)
-    desc = {'op': op, 'space': repr(recipe), 'same': same, 'poison': poison}
+    desc = {'op': op, 'space': repr(recipe), 'same': same, 'poison': poison, 'special': special}
     err = 0
     res = None
     cl = lambda v: lit(carrier, v)
@@ -639,7 +675,7 @@ def space_case(rng, recipe, op, poison=False):
                '; '.join(compress(carrier, a) for a in final), err))
     desc['err'] = err
     desc['shape'] = [max(int(np.prod(l[2])) for l in leaves)]
-    key = (op, repr(recipe), same, poison, desc.get('alias'), desc.get('a'), desc.get('b'), desc.get('c'),
+    key = (op, repr(recipe), same, poison, special, desc.get('alias'), desc.get('a'), desc.get('b'), desc.get('c'),
            desc.get('p'), err)
     return term, desc, key, carrier, tol
 
@@ -735,6 +771,12 @@ def space_cases(rng, tier, S):
         if 'int' not in bases:
             for op in (OPS if not quick else rng.sample(OPS, 12)):
                 S.put('sp', 'x', space_case(rng, r, op, poison=True), CHECKW, 'caseW %s')
+    # zeros / inf / nan in operands of the multiply / divide family (IEEE result at every entry,
+    # non-finite = None at the poisoned carrier), old contents of explicit outputs NaN or finite
+    for r in [rc for rc in recipes if 'int' not in set(DT[l[1]][0] for l in leaf_recipes(rc))][:(14 if quick else 40)]:
+        for op in SPECIAL_OPS:
+            for _ in range(1 if quick else 2):
+                S.put('sp', 'x', space_case(rng, r, op, poison=True, special=True), CHECKW, 'caseW %s')
     # power-space broadcasting
     children = [('T', 'float64', (3,)), ('D', 'float64', (2, 3)), ('T', 'complex128', (2,)), ('T', 'float64', (100,)),
                 ('P', [('T', 'float64', (2,)), ('D', 'float64', (3,))])]
@@ -839,6 +881,100 @@ def oracle(kind, **p):
                         if not np.array_equal(np.asarray(t.data), u):
                             ok = False
             return ok, obs, exp
+        if kind == 'special':
+            # multiply / divide family with exact zeros, inf, nan: IEEE result at EVERY entry (inf and nan
+            # positions included); explicit outputs pre-filled with NaN or a finite sentinel
+            import random as _r
+            prng = _r.Random(p['seed'])
+            recipe, op = p['recipe'], p['op']
+            space = mk_space(recipe)
+            x = mk_element(prng, recipe, 'any'); y = x if p.get('same') else mk_element(prng, recipe, 'any')
+            z = mk_element(prng, recipe, 'any')
+            inject(prng, x, [0.0, np.inf, -np.inf, np.nan, 0.0, 1.0])
+            if y is not x:
+                inject(prng, y, [0.0, 0.0, np.inf, np.nan, 2.0])
+            for t in leaf_tensors(z):
+                t.data[...] = np.nan if p['fill'] == 'nan' else 7.0
+            lx = [np.array(t.data, copy=True) for t in leaf_tensors(x)]
+            ly = [np.array(t.data, copy=True) for t in leaf_tensors(y)]
+            c = p.get('c', 2.0)
+            f = {'truediv': lambda u, v: u / v, 'itruediv': lambda u, v: u / v, 'rtruediv_s': lambda u, v: c / u,
+                 'mul': lambda u, v: v * u, 'imul': lambda u, v: v * u, 'divide_out': lambda u, v: u / v,
+                 'multiply_out': lambda u, v: u * v, 'divide_out_x2': lambda u, v: u / v,
+                 'divide_out_x1': lambda u, v: u / v, 'truediv_s': lambda u, v: u / c}[op]
+            want = [f(u, v) for u, v in zip(lx, ly)]
+            g = {'truediv': lambda: x / y, 'itruediv': lambda: x.__itruediv__(y), 'rtruediv_s': lambda: c / x,
+                 'mul': lambda: x * y, 'imul': lambda: x.__imul__(y),
+                 'divide_out': lambda: space.divide(x, y, out=z), 'multiply_out': lambda: space.multiply(x, y, out=z),
+                 'divide_out_x2': lambda: space.divide(x, y, out=y), 'divide_out_x1': lambda: space.divide(x, y, out=x),
+                 'truediv_s': lambda: x / c}[op]
+            res = g()
+            got = [np.asarray(t.data) for t in leaf_tensors(res)]
+            ok = len(got) == len(want) and all(
+                np.allclose(gv, wv, rtol=1e-6, atol=0, equal_nan=True) and np.array_equal(np.isnan(gv), np.isnan(wv))
+                and np.array_equal(np.isinf(gv), np.isinf(wv)) for gv, wv in zip(got, want))
+            if res is not x and op not in ('itruediv', 'imul', 'divide_out_x1'):
+                ok = ok and all(np.array_equal(t.data, u, equal_nan=True) for t, u in zip(leaf_tensors(x), lx))
+            if res is not y and y is not x and op != 'divide_out_x2':
+                ok = ok and all(np.array_equal(t.data, v, equal_nan=True) for t, v in zip(leaf_tensors(y), ly))
+            return ok, [gv.ravel()[:5].tolist() for gv in got][:2], [np.asarray(wv).ravel()[:5].tolist() for wv in want][:2]
+        if kind == 'int_exact':
+            # integer spaces with magnitudes beyond 2**53: compared exactly with Python integers
+            import random as _r
+            prng = _r.Random(p['seed'])
+            dtype, n, op = p['dtype'], p['n'], p['op']
+            lo = 0 if dtype.startswith('u') else -(2 ** 60)
+
+            def big():
+                return [prng.choice([prng.randint(lo, 2 ** 60), 2 ** 53 + prng.randint(1, 99), 2 ** 60 + 1,
+                                     prng.randint(lo // 2 ** 6, 2 ** 54), prng.randint(0, 9)]) for _ in range(n)]
+            sk = p.get('space', 'tensor')
+            if sk == 'tensor':
+                space = odl.tensor_space(n, dtype=dtype); mk = lambda v: space.element(np.array(v, dtype=dtype))
+                val = lambda e: [int(t) for t in e.data]
+            elif sk == 'discr':
+                space = odl.uniform_discr(0, 1, n, dtype=dtype); mk = lambda v: space.element(np.array(v, dtype=dtype))
+                val = lambda e: [int(t) for t in e.tensor.data]
+            else:
+                base_ = odl.tensor_space(n, dtype=dtype); space = odl.ProductSpace(base_, 2)
+                mk = lambda v: space.element([np.array(v, dtype=dtype), np.array(v[::-1], dtype=dtype)])
+                val = lambda e: [int(t) for part in e for t in part.data]
+            vx, vy, vz = big(), big(), big()
+            els = [mk(vx), mk(vy), mk(vz)]
+            pv = [val(e) for e in els]
+            k = p.get('c', 2)
+            md = 2 ** 64 if dtype.startswith('u') else 0      # unsigned arithmetic is modulo 2**64
+            if op == 'lincomb':
+                ix1, ix2, iout = ALIAS[p['alias']]
+                a, b = p['a'], p['b']
+                want = [(a * u + b * v) % md if md else a * u + b * v for u, v in zip(pv[ix1], pv[ix2])]
+                res = space.lincomb(a, els[ix1], b, els[ix2], out=els[iout])
+                ok = val(res) == want
+                for j in range(3):
+                    if j != iout:
+                        ok = ok and val(els[j]) == pv[j]
+                return ok, val(res)[:4], want[:4]
+            x, y = els[0], (els[0] if p.get('same') else els[1])
+            px, py = pv[0], (pv[0] if p.get('same') else pv[1])
+            table = {
+                'add': (lambda: x + y, lambda u, v: u + v), 'sub': (lambda: x - y, lambda u, v: u - v),
+                'iadd': (lambda: x.__iadd__(y), lambda u, v: u + v), 'isub': (lambda: x.__isub__(y), lambda u, v: u - v),
+                'neg': (lambda: -x, lambda u, v: -u), 'pos': (lambda: +x, lambda u, v: u),
+                'copy': (lambda: x.copy(), lambda u, v: u), 'assign': (lambda: x.assign(y), lambda u, v: v),
+                'mul_s': (lambda: x * k, lambda u, v: u * k), 'rmul_s': (lambda: k * x, lambda u, v: u * k),
+                'imul_s': (lambda: x.__imul__(k), lambda u, v: u * k),
+                'add_s': (lambda: x + k, lambda u, v: u + k), 'rsub_s': (lambda: k - x, lambda u, v: k - u),
+                'sub_s': (lambda: x - k, lambda u, v: u - k), 'iadd_s': (lambda: x.__iadd__(k), lambda u, v: u + k),
+                'rsub': (lambda: x.__rsub__(y), lambda u, v: v - u), 'lincomb1': (lambda: space.lincomb(k, x), lambda u, v: k * u),
+            }
+            run, fn = table[op]
+            want = [fn(u, v) % md if md else fn(u, v) for u, v in zip(px, py)]
+            res = run()
+            got = val(res)
+            ok = got == want
+            if y is not x and op != 'assign':
+                ok = ok and val(y) == py
+            return ok, got[:4], want[:4]
         if kind == 'set_zero':
             space = odl.tensor_space(p['n'], dtype=p['dtype']) if p.get('space', 'tensor') == 'tensor' else \
                 odl.uniform_discr(0, 1, p['n'], dtype=p['dtype'])
@@ -1033,6 +1169,39 @@ def probes(rng, tier):
                 _probe(out, 'op-%s-large-nd-%s-%s' % (op, _spacekind(r), ''.join(lays)),
                        '%s on %r, x in %s order, y in %s order' % (op, r, lays[0], lays[1]),
                        'op', recipe=r, op=op, same=False, c=2, seed=rng.randint(0, 10 ** 6), layouts=lays)
+    # 1e. multiply / divide family with exact zeros, inf, nan in the operands, outputs pre-filled
+    sp_recipes = [('T', 'float64', (5,)), ('T', 'float64', (120,)), ('D', 'float64', (3, 4)), ('T', 'complex128', (4,)),
+                  ('P', [('T', 'float64', (3,)), ('D', 'float64', (2, 2))]),
+                  ('P', [('P', [('T', 'float64', (2,))] * 2), ('T', 'float32', (3,))])]
+    for r in sp_recipes:
+        for op in ('truediv', 'itruediv', 'rtruediv_s', 'mul', 'imul', 'divide_out', 'multiply_out',
+                   'divide_out_x1', 'divide_out_x2'):
+            for fill in ('nan', 'finite'):
+                for same in ((False, True) if op in ('truediv', 'itruediv', 'mul', 'imul') else (False,)):
+                    for rep in range(1 if quick else 3):
+                        _probe(out, 'special-values-%s-%s%s' % (op, _spacekind(r), '-self' if same else ''),
+                               '%s on %r with zeros/inf/nan in the operands (old out: %s): IEEE result at every entry'
+                               % (op, r, fill), 'special', recipe=r, op=op, fill=fill, same=same, c=rng.choice([2.0, -1.0, 0.5]),
+                               seed=rng.randint(0, 10 ** 6))
+    # 1f. integer spaces with entries beyond 2**53, exact comparison with Python integers
+    for dtype in ('int64', 'uint64'):
+        for sk in ('tensor', 'discr', 'pspace'):
+            for n in (3, 120):
+                for alias in ALIAS:
+                    for a, b in [(1, 1), (1, -1), (-1, 1), (0, 1), (1, 0), (2, -1)]:
+                        neg = (a < 0 or b < 0) and dtype == 'uint64'
+                        _probe(out, 'uint64-negative-scalar-inexact' if neg else 'int-exact-lincomb-%s-%s' % (sk, alias),
+                               '%s %s(%d): lincomb(%d, x1, %d, x2, out), alias %s, entries up to 2**60, exact' % (sk, dtype, n, a, b, alias),
+                               'int_exact', dtype=dtype, n=n, op='lincomb', alias=alias, a=a, b=b, space=sk,
+                               seed=rng.randint(0, 10 ** 6))
+                for op in ('add', 'sub', 'iadd', 'isub', 'neg', 'pos', 'copy', 'assign', 'mul_s', 'rmul_s', 'imul_s', 'add_s',
+                           'rsub_s', 'sub_s', 'iadd_s', 'rsub', 'lincomb1'):
+                    for same in ((False, True) if op in ('add', 'sub', 'iadd', 'isub') else (False,)):
+                        neg = dtype == 'uint64' and op in ('sub', 'isub', 'neg', 'rsub_s', 'sub_s', 'rsub')
+                        _probe(out, 'uint64-negative-scalar-inexact' if neg else 'int-exact-%s-%s' % (op, sk),
+                               '%s %s(%d): %s%s with entries up to 2**60, exact' % (sk, dtype, n, op, ' (self)' if same else ''),
+                               'int_exact', dtype=dtype, n=n, op=op, same=same, space=sk, c=rng.choice([1, 2, 3]),
+                               seed=rng.randint(0, 10 ** 6))
     # 2. set_zero() on garbage
     for n in [1, 3, 99, 100, 101, 50000]:
         for fill in ('nan', 'inf'):
